@@ -48,9 +48,42 @@ class Connection:
         return self._process_not_unique(previous)
     else:
       self._gfa = gfa
-      self._initialize_references()
-      self._gfa._register_line(self)
+      try:
+        self._initialize_references()
+        self._gfa._register_line(self)
+      except:
+        self._rollback_connect()
+        raise
       return None
+
+  def _rollback_connect(self):
+    """
+    Undo a connection which failed after some of the references were
+    initialized: remove the backreferences and the placeholders created
+    for the line, turn the references back into identifiers.
+    """
+    targets = []
+    def collect(ref):
+      if isinstance(ref, gfapy.OrientedLine):
+        ref = ref.line
+      if isinstance(ref, gfapy.Line):
+        targets.append(ref)
+      elif isinstance(ref, list):
+        for elem in ref:
+          collect(elem)
+    for k in self.__class__.REFERENCE_FIELDS:
+      collect(self._data.get(k))
+    for k in self.__class__.OTHER_REFERENCES:
+      collect(self._refs.get(k, []))
+    self._remove_field_backreferences()
+    self._remove_nonfield_backreferences()
+    self._remove_field_references()
+    self._refs = {}
+    self._gfa = None
+    for target in targets:
+      if target.virtual and target.is_connected() and \
+          not target.all_references:
+        target.disconnect()
 
   @property
   def all_references(self):
